@@ -8,9 +8,9 @@ head = "## 12. Seeded changes (independent sub-agents) and which checks catch th
 i = s.index(head)
 table = subprocess.run([sys.executable, os.path.join(HERE, "tools", "seed_table.py")], capture_output=True, text=True).stdout
 text = head + """
-Eight rounds of 19 fresh sub-agents each (152 changes). Every agent got only the text of one property and its own scratch
-git worktree of /repo under /tmp (nothing from /verif; rounds 2-8 were additionally told which ideas had already
-been used for that property, so that the eight changes per property differ in mechanism (rounds 5-8 were also asked to stay out of the files and functions the earlier ones had touched)). Each wrote one realistic
+Nine rounds of 19 fresh sub-agents each (171 changes). Every agent got only the text of one property and its own scratch
+git worktree of /repo under /tmp (nothing from /verif; rounds 2-9 were additionally told which ideas had already
+been used for that property, so that the nine changes per property differ in mechanism (rounds 5-9 were also asked to stay out of the files and functions the earlier ones had touched)). Each wrote one realistic
 regression (a tidy-up, an off-by-one, a moved statement, a swapped argument, ...) that still passes the 88 baseline
 tests, plus a stand-alone demonstration. Each change was confirmed by `tools/seed_collect.sh` in a *fresh* scratch
 worktree (demo exits 0 on HEAD, 1 with the patch; baseline pytest command passes with the patch) and then evaluated by
@@ -18,9 +18,9 @@ worktree (demo exits 0 on HEAD, 1 with the patch; baseline pytest command passes
 live in `seeded/<id>/` (`patch.diff`, `demo.py`, `notes.md`, `confirm.json`, `eval.json`, `meta.json`); none was ever
 committed to /repo, all worktrees were removed.
 
-**Result: all 152 are reported by their own property's quick check as `VIOLATION` with a concrete failing input** (not
+**Result: all 171 are reported by their own property's quick check as `VIOLATION` with a concrete failing input** (not
 merely as a broken correspondence). That was not so at first: 9 of the first 19, 14 of the second 19, 13 of the
-third 19, 8 of the fourth 19, 11 of the fifth 19, 14 of the sixth 19, 9 of the seventh 19 and 11 of the eighth 19 were initially missed or seen only as a broken correspondence. Each miss was a hole in a *generator* or a
+third 19, 8 of the fourth 19, 11 of the fifth 19, 14 of the sixth 19, 9 of the seventh 19, 11 of the eighth 19 and 11 of the ninth 19 were initially missed or seen only as a broken correspondence. Each miss was a hole in a *generator* or a
 missing *clause*, never a reason to weaken a check; what was added (all of it also runs on the unchanged tree):
 
 * round 1: coarse search grids and call provenance (C02), budget stress + reserve correspondence (C03), runs started at
@@ -97,6 +97,21 @@ missing *clause*, never a reason to weaken a check; what was added (all of it al
   bound), objective values >= 1e200 (non-finite GP statistics), a target object that cannot be deep-copied (`OptimizeResult` copies `fun`),
   `np.longdouble` values beyond the double range, the non-functional `fun_values` option, `display` as process-wide logger state (only what
   is printed changes), log-coordinates for non-positive points outside the box (already excluded from C11's quantifier).
+
+* round 9: a user-supplied `sqrt_beta` schedule, evaluated by the harness at t = func_count + 1 (C15), runs with `search_size_locked=False`
+  long enough for the poll mesh to pass the initial search mesh + the meshes handed to the direction generator + an INDEPENDENT count of
+  main-loop passes (C13: the tracer's per-iteration events hung on the refresh of the search bounds, which the seeded change skipped - the runs
+  it broke were silently left out of the replay; now a mismatch between the two counts is a broken correspondence), options after runs in
+  which GP fits AND the restart sampler fail (C20), invalid values inside one-element containers (C10), foreign constructions from hard bounds
+  only (C07), `result.x0` when the caller re-uses its start vector (C19), a noisy target with `uncertainty_handling=False` given explicitly
+  + "the noise test is made" (C05), one failed posterior update while a point is added to the surrogate, at each of the first 24 such updates
+  (C04), a second `optimize()` call on the same object (C02), ES generations of more than 2048 candidates + "one acquisition value per
+  candidate" (C18), `force_poll_mesh` with `search_mesh_expand` and the optimum on a face (C01). Side remark followed up and fixed:
+  integer-typed / float32 SDs in the specified-noise merge (45db4f6). Not pursued: `poll_acq_fcn` is never read and the final acquisition
+  call of `_search_step_` ignores a configured `sqrt_beta` (unimplemented options rather than broken properties), `init_sobol`'s seed depends on
+  NumPy's print options (a caller who changes them between two seeded runs gets different runs; pybads itself never changes them),
+  `OptimizeResult.update()` accepts unknown keys, `np.ma.masked` / `complex(1, 0)` are accepted as values, a multi-row `x0` is written to
+  before a ValueError, passing another instance's `Options` object shares its `useroptions` set.
 
 Two of those generator extensions exposed genuine defects on the pinned tree (section 11: `noise_size` with specified
 noise; three boolean advanced options), which were repaired by `fix:` commits; one more (`fit_lik=False`) is a known finding.
